@@ -9,6 +9,10 @@ from hypothesis import strategies as st
 from vf.gen import exprs
 
 ZOO = [
+    # odd but legal spellings: blanks before colons, NFKC-normalized identifiers, comments after else
+    "def f(x):\n    if x :\n        return 1\n    else :\n        return 2\nprint(f(1))\n",
+    "def fW\u00ba() -> bool:\n    if x == 1:\n        return False\n    return True\nclass \ufb01le:\n    pass\nprint(fW\u00ba)\n",
+    "def f(x):\n    if x:\n        return 1\n    else:  # why\n        return 2\n\nwhile x :\n    break\nelse :\n    pass\ntry :\n    pass\nexcept E :\n    pass\nfinally :\n    pass\n",
     "x = 1\ny: int = 2\nz: list[int]\nx += 1\na = b = 3\n(c, d), e = (1, 2), 3\nf, *g = [1, 2, 3]\n*h, i = [1, 2]\n",
     "def f(a, /, b, *, c=1, **kw):\n    return a + b + c\nprint(f(1, 2, c=3))\n",
     "def g(*args, key=None):\n    '''doc'''\n    yield from args\n    yield\nprint(list(g(1, 2)))\n",
